@@ -237,3 +237,104 @@ def c17(kind, version, routes, raw, obs, info=None):
         bad.append(("code:" + tag, "unhandled action %r on %s answered with %r, expected CALLERROR %s" % (
             action, version, w[:1], want)))
     return bad
+
+
+# ------------------------------------------------------------------------------- histories
+def _caller_ids(ops):
+    ids, n = {}, 0
+    for o in ops:
+        if o[0] == "start":
+            if o[2] is None:
+                ids[o[1]] = "gen-%d" % n
+                n += 1
+            else:
+                ids[o[1]] = o[2]
+    return ids
+
+
+def _py_eq(a, b):
+    try:
+        return a == b
+    except Exception:  # noqa: BLE001
+        return False
+
+
+def c02(version, routes, ops, timeout, res):
+    bad = []
+    ids = _caller_ids(ops)
+    uniq = {k for k, u in ids.items() if sum(1 for v in ids.values() if jkey(v) == jkey(u) or _py_eq(u, v)) == 1}
+    start_index = {o[1]: i for i, o in enumerate(ops) if o[0] == "start"}
+    writes = [(t, json.loads(m)) for (t, m) in res["writes"]]
+    for k, (kind, detail, t) in res["outcomes"].items():
+        k = int(k)
+        uid = ids.get(k)
+        replies = []
+        for i, o in enumerate(ops):
+            if o[0] == "inbound" and i > start_index.get(k, -1):
+                try:
+                    fr = json.loads(o[1])
+                except ValueError:
+                    continue
+                if isinstance(fr, list) and len(fr) >= 3 and fr[0] in (3, 4) and not isinstance(fr[0], bool):
+                    replies.append(fr)
+        # replies that arrived before the caller started may still be queued: allow those too
+        earlier = []
+        for i, o in enumerate(ops):
+            if o[0] == "inbound" and i < start_index.get(k, -1):
+                try:
+                    fr = json.loads(o[1])
+                except ValueError:
+                    continue
+                if isinstance(fr, list) and len(fr) >= 3 and fr[0] in (3, 4) and not isinstance(fr[0], bool):
+                    earlier.append(fr)
+        mine = [fr for fr in replies + earlier if _py_eq(fr[1], uid)]
+        if kind == "result":
+            ok = any(fr[0] == 3 and same_value(_snake(fr[2]), detail) for fr in mine)
+            if not ok:
+                bad.append(("foreign-result:%s" % jkey(uid)[:40],
+                            "caller %d (id %r) returned %r although no CALLRESULT with its id carries that payload" % (k, uid, detail)))
+        if kind == "none" and not any(fr[0] == 4 for fr in mine):
+            bad.append(("foreign-error:%s" % jkey(uid)[:40], "caller %d (id %r) got a CALLERROR outcome without a CALLERROR of its id" % (k, uid)))
+        if kind == "timeout" and k in uniq:
+            tw = [tt for (tt, fr) in writes if isinstance(fr, list) and fr and fr[0] == 2 and jkey(fr[1]) == jkey(uid)]
+            if tw and abs((t - tw[0]) - timeout) > 1e-9:
+                bad.append(("deadline:%s" % jkey(uid)[:40],
+                            "caller %d timed out %.2f s after its CALL was written (response timeout %s)" % (k, t - tw[0], timeout)))
+    for k in res.get("pending", []):
+        bad.append(("never-completes:%s" % k, "caller %s never completed although the clock passed every deadline" % k))
+    return bad
+
+
+def c03(version, routes, ops, timeout, res):
+    bad = []
+    ids = _caller_ids(ops)
+    writes = [(t, json.loads(m)) for (t, m) in res["writes"]]
+    calls = [(t, fr) for (t, fr) in writes if isinstance(fr, list) and fr and fr[0] == 2 and not isinstance(fr[0], bool)]
+    by_id = {}
+    for k, u in ids.items():
+        by_id.setdefault(jkey(u), []).append(k)
+    done = {int(k): v for k, v in res["outcomes"].items()}
+    for (t1, f1), (t2, f2) in zip(calls, calls[1:]):
+        ks = by_id.get(jkey(f1[1]), [])
+        if len(ks) == 1:
+            k = ks[0]
+            if k not in done or done[k][2] > t2 + 1e-9:
+                bad.append(("overlap:%s" % jkey(f1[1])[:40],
+                            "CALL %r was written at %.2f while the request %r (written %.2f) was still outstanding" % (
+                                f2[1], t2, f1[1], t1)))
+    if res["locked"]:
+        bad.append(("gate-held", "the send gate is still held after every request completed"))
+    if "99" in {str(k) for k in res["outcomes"]}:
+        o = res["outcomes"].get(99) or res["outcomes"].get("99")
+        if o[0] != "result":
+            bad.append(("epilogue:" + o[0], "after the history a fresh request ended with %r instead of its result" % (o[:2],)))
+    elif any(o[0] == "start" and o[1] == 99 for o in ops):
+        bad.append(("epilogue:pending", "after the history a fresh request never completed"))
+    n_in = 0
+    for o in ops:
+        if o[0] == "inbound" and parse_call(o[1]) is not None:
+            n_in += 1
+    n_rep = sum(1 for (t, fr) in writes if isinstance(fr, list) and fr and fr[0] in (3, 4) and not isinstance(fr[0], bool))
+    if n_in != n_rep:
+        bad.append(("inbound-unanswered", "%d inbound CALLs but %d replies were written" % (n_in, n_rep)))
+    return bad
